@@ -477,6 +477,39 @@ def _potdef_cached(depth, has_custom, has_table, max_ranges, leaf_names, allow_s
     return pd_s
 
 
+VARIATIONS = ["copy", "add_range", "add_range", "drop_range", "shift_start", "flip_marker", "other_first_body"]
+
+
+def vary(draw, pd, body):
+    """a definition that shares most of an earlier definition of the same model: an exact copy, the same ranges
+    with a further range appended / the last one removed, the same bodies with one range start moved or one marker
+    flipped, or the same continuation behind another first body.  Independent random definitions (almost) never
+    coincide in any part, so anything keyed on part of a definition is only exercised by these."""
+    import copy
+    pd = copy.deepcopy(pd)
+    rgs = pd["ranges"]
+    how = draw(st.sampled_from(VARIATIONS))
+    last = max([0.0] + [float(r["s"]) for r in rgs if r["m"] is not None])
+    if how == "add_range" or (how in ("drop_range", "shift_start") and len(rgs) < 2):
+        rgs.append({"m": draw(st.sampled_from([">", ">="])), "s": round(last + draw(fl(0.2, 4.0, sig=3)), 3),
+                    "body": draw(st.one_of(st.just({"k": "form", "name": "zero", "p": []}), body))})
+    elif how == "drop_range":
+        top = max(range(1, len(rgs)), key=lambda i: float(rgs[i]["s"]))
+        del rgs[top]
+    elif how == "shift_start":
+        top = max(range(1, len(rgs)), key=lambda i: float(rgs[i]["s"]))
+        rgs[top]["s"] = round(float(rgs[top]["s"]) + draw(fl(0.1, 2.0, sig=3)), 3)
+    elif how == "flip_marker":
+        i = draw(st.integers(0, len(rgs) - 1))
+        if rgs[i]["m"] is None:
+            rgs[i]["m"], rgs[i]["s"] = ">=", 0.0      # bare definition acts for r > 0: the same range made inclusive
+        else:
+            rgs[i]["m"] = ">" if rgs[i]["m"] == ">=" else ">="
+    elif how == "other_first_body":
+        rgs[0]["body"] = draw(body)
+    return pd
+
+
 # --------------------------------------------------------------------------
 # species
 # --------------------------------------------------------------------------
@@ -527,7 +560,10 @@ def pair_model(draw, max_pots=4, depth=2, max_tables=1, pycallables=False, min_p
     for a, b in chosen:
         if draw(st.booleans()):
             a, b = b, a
-        pd = draw(potdef(draw(st.sampled_from([0, 1, 1, depth])), customs, tables, max_ranges=3))
+        if pair and draw(st.integers(0, 3)) == 0:
+            pd = vary(draw, draw(st.sampled_from(pair))[2], potdef(0, customs, tables, max_ranges=1).map(lambda d: d["ranges"][0]["body"]))
+        else:
+            pd = draw(potdef(draw(st.sampled_from([0, 1, 1, depth])), customs, tables, max_ranges=3))
         if pycallables:
             pd = tag(pd)
         pair.append([a, b, pd])
@@ -561,8 +597,15 @@ def eam_model(draw, kind="eam", n_min=1, n_max=4, depth=1, pycallables=False, ma
     pdraw = potdef(depth, customs, [], max_ranges=2)
     p0 = potdef(0, customs, [], max_ranges=2)
 
+    pool = []
+    body0 = potdef(0, customs, [], max_ranges=1).map(lambda d: d["ranges"][0]["body"])
+
     def pot():
-        pd = draw(st.one_of(p0, p0, pdraw))
+        if pool and draw(st.integers(0, 3)) == 0:
+            pd = vary(draw, draw(st.sampled_from(pool)), body0)
+        else:
+            pd = draw(st.one_of(p0, p0, pdraw))
+        pool.append(pd)
         return pd
     m = {"kind": kind, "env": {"custom": customs, "table": []}, "elements": els}
     # under-specified models: an element needs only an embedding OR a density entry; the other is zero-filled
@@ -608,11 +651,11 @@ def eam_model(draw, kind="eam", n_min=1, n_max=4, depth=1, pycallables=False, ma
     for e in els:
         invented = e not in ELEMENT_TABLE
         if invented or draw(st.integers(0, 2)) == 0:
-            sp.append([e, "atomic_number", draw(st.integers(1, 118))])
+            sp.append([e, "atomic_number", draw(st.one_of(st.integers(1, 118), st.sampled_from([0, 1, 118])))])
         if invented or draw(st.integers(0, 2)) == 0:
-            sp.append([e, "atomic_mass", draw(fl(1.0, 250.0))])
+            sp.append([e, "atomic_mass", draw(st.one_of(fl(1.0, 250.0), fl(1.0, 250.0), st.sampled_from([0.0, 0, 1])))])
         if draw(st.integers(0, 2)) == 0:
-            sp.append([e, "lattice_constant", draw(fl(2.0, 6.0))])
+            sp.append([e, "lattice_constant", draw(st.one_of(fl(2.0, 6.0), fl(2.0, 6.0), st.sampled_from([0.0, 0, 1])))])
         if draw(st.integers(0, 2)) == 0:
             sp.append([e, "lattice_type", draw(st.sampled_from(LATTICES))])
     m["species"] = list(draw(st.permutations(sp))) if sp else []
